@@ -328,7 +328,8 @@ def obligations(tier: str):
     obs = []
     if q:
         # one test case of <= 3 statements over the first 8 kinds
-        obs.append(Chx("cov_single", h_cov_single, timeout=T, fix={"m": 8, "nmax": 3, "amax": 1}, split={"cfg": [0, 1, 4], "am": [0, 1]}))
+        obs.append(Chx("cov_single", h_cov_single, timeout=T, fix={"m": 8, "nmax": 3, "amax": 1}, split={"cfg": [0, 1], "am": [0, 1]}))
+        obs.append(Chx("cov_single", h_cov_single, timeout=T, fix={"m": 8, "nmax": 3, "amax": 1, "cfg": 4, "am": 0}))  # COMBINED never reads assertions
         obs.append(Chx("ass_single", h_ass_single, timeout=T, fix={"m": 8, "nmax": 3, "amax": 4}, split={"cfg": [0, 1], "am": [1, 2, 4]}))
         obs.append(Chx("ass_single", h_ass_single, timeout=T, fix={"m": 8, "nmax": 3, "amax": 4, "cfg": 2, "am": 3}))
         obs.append(Chx("ass_single", h_ass_single, timeout=T, fix={"m": 8, "nmax": 2, "amax": 1, "cfg": 4}))
